@@ -190,10 +190,17 @@ def _set(mod, name, val):
     setattr(mod, name, val)
 
 
+def _install_reset_hook():
+    from . import hidden
+    if hidden.restore not in sx.PATH_RESET_HOOKS:
+        sx.PATH_RESET_HOOKS.append(hidden.restore)
+
+
 def install(extra=None):
     """extra: list of (module, name, value) stubs specific to a harness"""
     if _installed[0]:
         uninstall()
+    _install_reset_hook()
     for m in NP_MODULES:
         _set(m, 'np', npmodel)
     for m in BUILTIN_MODULES:
